@@ -167,6 +167,8 @@ def c_op(t):
         _arity(t, 4)
         return '(ORemove %s %s %s)' % (_look(REL, t[1], 'rel'), c_nat(t[2], 'id'), c_nat(t[3], 'id'))
     if o in ('removefrom', 'reorder'):
+        if o == 'removefrom' and t[-1] == 'set' and len(t) >= 5:
+            t = t[:-1]   # spelling marker of the harness (the caller hands the same elements over as a set): not part of the model's op
         if len(t) < 4:
             raise TokenError('short op %r' % (t,))
         return '(%s %s %s %s)' % ('ORemoveFrom' if o == 'removefrom' else 'OReorder', _look(REL, t[1], 'rel'),
@@ -182,6 +184,8 @@ def c_op(t):
         _arity(t, 3)
         return '(ODisconnect %s %s)' % (c_nat(t[1], 'id'), c_pin(t[2]))
     if o == 'setref':
+        if len(t) == 4 and t[2] == '~' and t[3] == 'del':
+            t = t[:3]    # spelling marker of the harness (`del inst.reference`): the same op
         _arity(t, 3)
         return '(OSetReference %s %s)' % (c_nat(t[1], 'id'), c_optnat(t[2], 'id'))
     if o == 'settop':
@@ -209,12 +213,16 @@ def c_op(t):
         _arity(t, 3)
         return '(%s %s %s)' % ('ODDel' if o == 'ddel' else 'ODPop', c_nat(t[1], 'id'), c_str(t[2]))
     if o in ('downto', 'scalar'):
+        if o == 'scalar' and len(t) == 4 and t[3] == 'array':
+            t = t[:3]    # spelling marker of the harness (the caller assigns the inverse attribute is_array): the same op
         _arity(t, 3)
         return '(%s %s %s)' % ('OSetDownto' if o == 'downto' else 'OSetScalar', c_nat(t[1], 'id'), c_bool(t[2]))
     if o == 'lower':
         _arity(t, 3)
         return '(OSetLower %s (%d)%%Z)' % (c_nat(t[1], 'id'), _int(t[2], 'lower index'))
     if o == 'direction':
+        if len(t) == 4 and t[3] in ('enum', 'int', 'strl', 'stru', 'strc'):
+            t = t[:3]    # spelling marker of the harness (Port.Direction member / documented int / documented string): the same op
         _arity(t, 3)
         return '(OSetDirection %s %s)' % (c_nat(t[1], 'id'), _look(DIR, t[2], 'direction'))
     if o == 'policy':
